@@ -460,7 +460,43 @@ def unit_boundary(U):
                      exhaustive=True, sample={"start": pts[3], "stop": pts[5]})
 
 
-UNITS = [("bins[gff,one]", _unit_bins("gff", True)), ("bins[gff,set]", _unit_bins("gff", False)),
+def unit_handed_out(U):
+    """Bounded: every Feature a FeatureDB hands out or derives - rows read back, interfeatures, introns, merged features -
+    carries bin == bins(start, end), with the features placed so that the derived coordinates fall on either side of bin
+    boundaries (a gap that begins / ends exactly on a multiple of 2**17, 2**20, 2**23)."""
+    import gffutils
+    fails, cases = [], 0
+    for L in (17, 20, 23):
+        B0 = 2 ** L
+        for d1 in (-2, -1, 0, 1):
+            for d2 in (-1, 0, 1, 2):
+                left_end, right_start = B0 + d1, B0 + 1000 + d2 if L == 17 else 2 * B0 + d2
+                feats = []
+                for i, (a, b) in enumerate(((left_end - 50, left_end), (right_start, right_start + 50))):
+                    f = F.Feature(seqid="c", source="s", featuretype="exon", start=a, end=b, strand="+", attributes={"ID": ["e%d" % i], "Parent": ["t"]})
+                    feats.append(f)
+                feats.append(F.Feature(seqid="c", source="s", featuretype="mRNA", start=left_end - 50, end=right_start + 50, strand="+", attributes={"ID": ["t"]}))
+                try:
+                    db = gffutils.create_db(feats, ":memory:")
+                    out = [("row", f) for f in db.all_features()]
+                    out += [("interfeature", f) for f in db.interfeatures(db.features_of_type("exon", order_by="start"))]
+                    out += [("intron", f) for f in db.create_introns()]
+                    out += [("merged", f) for f in db.merge(db.features_of_type("exon", order_by="start"))]
+                    out += [("child", f) for f in db.children("t", order_by="start")]
+                    out += [("region", f) for f in db.region(("c", left_end - 10, right_start + 10))]
+                    for kind, f in out:
+                        cases += 1
+                        exp = S.bin1(f.start, f.end, "gff")
+                        if f.bin != exp:
+                            fails.append({"case": {"kind": kind, "start": f.start, "end": f.end, "exons": [(x.start, x.end) for x in feats[:2]]}, "expected": exp, "observed": f.bin})
+                except Exception as e:
+                    cases += 1
+                    fails.append({"case": {"exons": [(x.start, x.end) for x in feats[:2]]}, "expected": "no exception", "observed": repr(e)})
+    U.bounded_result("C12.bounded.handed_out", "Features handed out or derived by a FeatureDB (rows, interfeatures, introns, merged, children, region) have bin == bins(start, end)",
+                     "two exons whose gap begins / ends within -2..+2 of a multiple of 2**17, 2**20, 2**23; 6 kinds of Feature source", cases, fails)
+
+
+UNITS = [("bounded.handed_out", unit_handed_out), ("bins[gff,one]", _unit_bins("gff", True)), ("bins[gff,set]", _unit_bins("gff", False)),
          ("bins[bed,one]", _unit_bins("bed", True)), ("bins[bed,set]", _unit_bins("bed", False)),
          ("lemma.nest", unit_nest), ("calc_bin", unit_calc_bin), ("calc_bin_twice", unit_calc_bin_twice), ("bins_twice", unit_bins_twice), ("stored_bin", unit_stored_bin),
          ("bounded.boundaries", unit_boundary)]
